@@ -1,6 +1,7 @@
 import PrologVerif.Driver.Common
 import PrologVerif.Model.Read0
 import PrologVerif.Spec.IsoError
+import PrologVerif.Spec.AnswerBound
 import PrologVerif.Generated.Builtins
 namespace PrologVerif.Driver.C05
 open PrologVerif PrologVerif.Driver PrologVerif.Read0 PrologVerif.IsoError
@@ -46,22 +47,54 @@ def expectedProcs : List (String × Nat) :=
 def procsLine : String :=
   "procs " ++ " ".intercalate (expectedProcs.map fun p => encName p.1 ++ "/" ++ toString p.2)
 
+/-- the argument a shape name stands for, where the answer-count spec looks at it -/
+def shapeTerm : String → Option Term
+  | "var" => some (.var 0)
+  | "int1" => some (.int 1) | "int0" => some (.int 0) | "neg" => some (.int (-1))
+  | "huge" => some (.int 100000000000000) | "bigcode" => some (.int 1114112)
+  | "minint" => some (.int (-9223372036854775808)) | "minint1" => some (.int (-9223372036854775807))
+  | "maxint" => some (.int 9223372036854775807) | "maxint1" => some (.int 9223372036854775806)
+  | _ => none
+
+def parseCount (s : String) : Option (Nat × Bool) :=
+  let cs := s.toList
+  let more := cs.getLast? == some '+'
+  (natOfChars (if more then cs.dropLast else cs)).map (·, more)
+
 def matrixHandler : Handler := fun payload impl =>
   let (w, rest) := headWord payload
   if w == "procs" then
     ("-", if impl == procsLine then "ok"
           else "FAIL the procedures of a fresh interpreter differ from Generated/Builtins (Register* calls + bootstrap.pl): expected " ++ procsLine)
   else
-    let (pred, _) := headWord rest
+    let (pred, rest2) := headWord rest
+    let (_, shapes) := headWord rest2
     let (w, _) := headWord impl
     if w == "CRASH" || w == "HANG" || w == "HARNESS-PANIC" then ("-", judgeOutcome false impl)
     else
-      -- two runs of the goal on one interpreter: all answers (≤ 20), then once more
+      -- two runs of the goal on one interpreter (all answers up to the cap + one redo, then once more), the
+      -- number of answers of the first run, and the host-side API surface
       match impl.splitOn " ; " with
-      | [r1, r2] =>
+      | [r1, r2, n, host] =>
         let v1 := judgeOutcome (pred == "throw") r1
         let v2 := judgeOutcome (pred == "throw") r2
-        ("-", if v1 != "ok" then v1 else if v2 != "ok" then "FAIL second call: " ++ (v2.drop 5).toString else "ok")
+        let (nw, nr) := headWord n
+        let (hw, hr) := headWord host
+        let vn : String :=
+          match (if nw == "n" then parseCount nr else none), decName pred.toList with
+          | some (k, more), some p =>
+            match AnswerBound.judge (AnswerBound.bound p ((words shapes).map shapeTerm)) k more ((headWord r1).1 != "true" && (headWord r1).1 != "false") with
+            | some why => "FAIL wrong number of answers: " ++ why
+            | none => "ok"
+          | _, _ => "FAIL unexpected harness output: " ++ n
+        let vh := if hw == "host" && hr == "ok" then "ok"
+                  else if hw == "host" then
+                    (let (k, _) := headWord hr
+                     if k == "panic-host" then "FAIL the HOST goroutine panicked using the result (no recover protects the caller): " ++ hr
+                     else "FAIL writing the result from Prolog: " ++ (let v := judgeOutcome false ((headWord hr).2); if v == "ok" then hr else (v.drop 5).toString ++ " [" ++ k ++ "]"))
+                  else "FAIL unexpected harness output: " ++ host
+        ("-", if v1 != "ok" then v1 else if v2 != "ok" then "FAIL second call: " ++ (v2.drop 5).toString
+              else if vn != "ok" then vn else vh)
       | _ => ("-", "FAIL unexpected harness output: " ++ impl)
 
 /-! ## c05.text -/
@@ -71,18 +104,31 @@ def textHandler : Handler := fun _ impl =>
   if w == "CRASH" || w == "HANG" || w == "HARNESS-PANIC" then ("-", judgeOutcome false impl)
   else
     match impl.splitOn " ; " with
-    | [q, e, r] =>
+    | [l, host] =>
+      -- a loader case: consult / Exec over files in memory
+      let (lw, lr) := headWord l
+      let (hw, hr) := headWord host
+      if lw != "l" || hw != "host" then ("-", "FAIL unexpected harness output")
+      else
+        let vl := judgeOutcome false lr
+        ("-", if vl != "ok" then "FAIL loading: " ++ (vl.drop 5).toString
+              else if hr != "ok" then "FAIL the HOST goroutine panicked using the result (no recover protects the caller): " ++ hr
+              else "ok")
+    | [q, e, r, host] =>
       let (qw, qr) := headWord q
       let (ew, er) := headWord e
       let (rw, rr) := headWord r
-      if qw != "q" || ew != "e" || rw != "r" then ("-", "FAIL unexpected harness output")
+      let (hw, hr) := headWord host
+      if qw != "q" || ew != "e" || rw != "r" || hw != "host" then ("-", "FAIL unexpected harness output")
       else
         let vq := judgeOutcome true qr
         let ve := judgeOutcome true er
         let vr := judgeOutcome true rr
         ("-", if vq != "ok" then "FAIL Query: " ++ (vq.drop 5).toString
               else if ve != "ok" then "FAIL Exec: " ++ (ve.drop 5).toString
-              else if vr != "ok" then "FAIL read/1: " ++ (vr.drop 5).toString else "ok")
+              else if vr != "ok" then "FAIL read/1: " ++ (vr.drop 5).toString
+              else if hr != "ok" then "FAIL the HOST goroutine panicked using the result (no recover protects the caller): " ++ hr
+              else "ok")
     | _ => ("-", "FAIL unexpected harness output")
 
 /-! ## c05.parse: the token-level reader model against the real Parser -/
